@@ -52,6 +52,15 @@ PROGRAMS = {
                                 'top.do': 'redo-ifchange good bad\ncat good bad > $3\n', 'src': 'v1\n', 'flag': 'fail\n'},
                          pre=[], cmd=['redo-ifchange', 'top'], tops=['top'], expect_fail_until_fixed=True,
                          oracle=lambda s: {'good': 'good(%s)\n' % s['src'].rstrip('\n'), 'bad': 'bad-ok\n', 'top': 'good(%s)\nbad-ok\n' % s['src'].rstrip('\n')}),
+    # scripts that produce their output on stdout: redo itself copies it into <target>.redo.tmp (crash points inside the copy)
+    'stdout-chain': dict(files={'mid.do': 'redo-ifchange src\necho "mid($(cat src))"\n', 'top.do': 'redo-ifchange mid\necho "top($(cat mid))"\nhead -c 70000 /dev/zero | tr "\\0" z\necho\n', 'src': 'v1\n'},
+                         pre=[], cmd=['redo-ifchange', 'top'], tops=['top'],
+                         oracle=lambda s: {'mid': 'mid(%s)\n' % s['src'].rstrip('\n'), 'top': 'top(mid(%s))\n' % s['src'].rstrip('\n') + 'z' * 70000 + '\n'}),
+    # a script that builds $3 by appending, with a nested redo-ifchange (= crash points) while $3 is half written
+    'append-rebuild': dict(files={'app.do': 'redo-ifchange src\necho "p1($(cat src))" >> $3\nredo-ifchange src2 aux\necho "p2($(cat src2))" >> $3\n',
+                                  'aux.do': 'redo-ifchange src2\necho "aux($(cat src2))" > $3\n', 'src': 'v1\n', 'src2': 'w1\n'},
+                           pre=[['redo-ifchange', 'app'], ('edit', 'src2', 'w1b\n')], cmd=['redo-ifchange', 'app'], tops=['app'],
+                           oracle=lambda s: {'app': 'p1(%s)\np2(%s)\n' % (s['src'].rstrip('\n'), s['src2'].rstrip('\n')), 'aux': 'aux(%s)\n' % s['src2'].rstrip('\n')}),
     'existing-db-new-target': dict(files={'mid.do': MID, 'top.do': TOP, 'src': 'v1\n', 'other.do': 'echo other > $3\n'}, pre=[['redo-ifchange', 'other']],
                                    cmd=['redo-ifchange', 'top'], tops=['top'],
                                    oracle=lambda s: {'mid': 'mid(%s)\n' % s['src'].rstrip('\n'), 'top': 'top(mid(%s))\n' % s['src'].rstrip('\n')}),
@@ -304,7 +313,7 @@ def dispatch(item):
     return crash_case(item)
 
 
-RULE = ('for each of 9 small programs (first builds and rebuilds of a chain, with and without a checksummed target, a diamond under a '
+RULE = ('for each of 11 small programs (first builds and rebuilds of a chain, with and without a checksummed target, scripts writing to stdout, a script that appends to $3 around a nested redo-ifchange, a diamond under a '
         'default rule, a 6-leaf fan at -j3, a build with a failing node, a first target in an existing database) an LD_PRELOAD shim counts the '
         'state-changing libc calls (rename, unlink, create/truncating open, write/pwrite to regular files incl. the SQLite database, WAL and '
         'log files, ftruncate, mkdir) of all redo processes and SIGKILLs the calling process (mode self) or its whole process group (mode group) '
@@ -322,7 +331,7 @@ def main(tier):
     common.ensure_built()
     col = Collector(PROP, tier, 'fault_enumeration', RULE, ASSUME, floor=20)
     rnd = random.Random(common.seed())
-    names = ['chain-first', 'chain-stamp-rebuild', 'chain-rebuild', 'diamond-default'] if quick else list(PROGRAMS)
+    names = ['chain-first', 'chain-stamp-rebuild', 'chain-rebuild', 'diamond-default', 'append-rebuild', 'stdout-chain'] if quick else list(PROGRAMS)
     items = []
     counts = {}
     for n in names:
